@@ -66,6 +66,36 @@ theorem source_replacement_is_pure (cfg : IpText.IpCfg) (undo : Bool) (txt : Lis
       Inv cfg.h cfg.pins cfg.L cfg.B c' ∧ (∀ e ∈ c, e ∈ c') :=
   SrcTie.anonymize_match_spec_all cfg undo txt c hI
 
+/-- **Whole lines**: `anonymize_ip_addr` as written in the source – `pattern.sub` with the memoising `_anonymize_match` as callback,
+called once per match from left to right – returns the pure `IpText.anonIpLine` on every reachable memo and keeps the invariant.
+`IpText.anonIpLine` is the function the text-level theorems are about (C06 `ipv4_stage_is_the_token_scanner`, C01/C04/C05 text
+level, C02 `undo_restores_line`): they hold for the stateful code as written, whatever was anonymized before. -/
+theorem source_line_is_pure (cfg : IpText.IpCfg) (undo : Bool) (line : List Char) (c : Cache)
+    (hI : Inv cfg.h cfg.pins cfg.L cfg.B c) :
+    ∃ c', Src.anonymize_ip_addr cfg.h cfg.fam6 cfg.nets cfg.L cfg.B cfg.pattern line undo c = .ok (IpText.anonIpLine cfg undo line, c') ∧
+      Inv cfg.h cfg.pins cfg.L cfg.B c' :=
+  SrcTie.anonymize_ip_addr_spec cfg undo line c hI
+
+/-- a whole text: every line of a file, one after the other on the same memo, gets the pure function's answer -/
+def srcLines (cfg : IpText.IpCfg) (undo : Bool) : List (List Char) → Cache → Except Err (List (Regex.Res (List Char)) × Cache)
+  | [], c => .ok ([], c)
+  | l :: ls, c =>
+    match Src.anonymize_ip_addr cfg.h cfg.fam6 cfg.nets cfg.L cfg.B cfg.pattern l undo c with
+    | .error e => .error e
+    | .ok (o, c1) => match srcLines cfg undo ls c1 with
+      | .error e => .error e
+      | .ok (os, c2) => .ok (o :: os, c2)
+
+theorem source_text_is_pure (cfg : IpText.IpCfg) (undo : Bool) (lines : List (List Char)) (c : Cache)
+    (hI : Inv cfg.h cfg.pins cfg.L cfg.B c) :
+    ∃ c', srcLines cfg undo lines c = .ok (lines.map (IpText.anonIpLine cfg undo), c') ∧ Inv cfg.h cfg.pins cfg.L cfg.B c' := by
+  induction lines generalizing c with
+  | nil => exact ⟨c, rfl, hI⟩
+  | cons l ls ih =>
+    obtain ⟨c1, h1, hI1⟩ := source_line_is_pure cfg undo l c hI
+    obtain ⟨c2, h2, hI2⟩ := ih c1 hI1
+    exact ⟨c2, by simp only [srcLines, h1, h2, List.map], hI2⟩
+
 /-- the constructor's memo (source seeding loop) satisfies the invariant, so the two theorems above apply from the start -/
 theorem source_constructor_memo_invariant :
     ∃ c0, Src.seed_loop pins [([], [])] = .ok ((), c0) ∧ Inv h pins L B c0 := by
